@@ -1,5 +1,6 @@
 // Multigraph and weighted classes: edge-list constructors (C09) and Dijkstra (C12, C19, C07).
 #include "algo.hpp"
+#include <set>
 #include <tuple>
 
 namespace verif {
@@ -9,12 +10,17 @@ class MWFamily : public IAlgoFamily {
     std::string name() const override { return "multigraph+weighted classes"; }
     bool handles(const std::string &k) const override {
         return k == "edgelist_multi" || k == "edgelist_weighted" || k == "dijkstra" || k == "reject_dijkstra" ||
-               k == "big_conv";
+               k == "big_conv" || k == "dijkstra_adversarial";
     }
     CaseResult run(const json &c, unsigned seed) override {
         const std::string k = c.at("k");
         CaseResult r;
-        if (k == "big_conv") {
+        if (k == "dijkstra_adversarial") {
+            if (c.at("dir").get<bool>())
+                adversarial<DirectedWeightedGraph>(c, r);
+            else
+                adversarial<UndirectedWeightedGraph>(c, r);
+        } else if (k == "big_conv") {
             bigEdgeList<DirectedMultigraph, UndirectedMultigraph, EdgeMultiplicity>(c, "multi", r);
             bigEdgeList<DirectedWeightedGraph, UndirectedWeightedGraph, EdgeWeight>(c, "weighted", r);
         } else if (k == "edgelist_multi")
@@ -41,6 +47,118 @@ class MWFamily : public IAlgoFamily {
     }
 
   private:
+    // C19: search for inputs that maximise the number of neighbourhood scans relative to the
+    // bound (a (1+1) evolutionary search over edge sets, weights and insertion orders, guided
+    // by the real implementation); the best instances found become ordinary records, so the
+    // verdict is still TLC's ScansOK on them.
+    struct Inst {
+        size_t n;
+        std::vector<std::tuple<VertexIndex, VertexIndex, int>> edges; // in insertion order
+    };
+    template <class W> static W buildInst(const Inst &in) {
+        W g(in.n);
+        for (auto &e : in.edges)
+            g.addEdge(std::get<0>(e), std::get<1>(e), (double)std::get<2>(e));
+        return g;
+    }
+    template <class W> static double fitness(const Inst &in, VertexIndex s, size_t &scans, size_t &bound) {
+        W g = buildInst<W>(in);
+        size_t E = 0;
+        for (VertexIndex v = 0; v < in.n; ++v)
+            E += g.getOutNeighbours(v).size();
+        CountW<W> cg(g);
+        cg.cap = 200 * (in.n + E) + 200;
+        try {
+            algorithms::findGeodesicsDijkstra(cg, s);
+        } catch (const ScanCapExceeded &) {
+        }
+        scans = cg.scans;
+        bound = in.n + E + 1;
+        return (double)scans / (double)bound;
+    }
+    template <class W> void adversarial(const json &c, CaseResult &r) {
+        const size_t n = c.at("n").get<size_t>();
+        const int iters = c.value("iterations", 20000);
+        std::mt19937 rng(c.value("seed", 1u));
+        const int maxW = c.value("max_weight", 30);
+        Inst best;
+        double bestFit = -1;
+        for (int restart = 0; restart < c.value("restarts", 4); ++restart) {
+            Inst cur;
+            cur.n = n;
+            std::set<std::pair<VertexIndex, VertexIndex>> present;
+            for (size_t k = 0; k < 3 * n; ++k) {
+                VertexIndex i = rng() % n, j = rng() % n;
+                if (i == j || !present.insert({i, j}).second || (!GInfo<W>::directed && present.count({j, i}) && i != j && present.count({j, i}) && false))
+                    continue;
+                cur.edges.emplace_back(i, j, (int)(rng() % (maxW + 1)));
+            }
+            size_t sc, bd;
+            double curFit = fitness<W>(cur, 0, sc, bd);
+            for (int it = 0; it < iters; ++it) {
+                Inst nx = cur;
+                switch (rng() % 5) {
+                case 0: // change a weight
+                    if (!nx.edges.empty())
+                        std::get<2>(nx.edges[rng() % nx.edges.size()]) = (int)(rng() % (maxW + 1));
+                    break;
+                case 1: { // add an edge
+                    VertexIndex i = rng() % n, j = rng() % n;
+                    bool dup = false;
+                    for (auto &e : nx.edges)
+                        if ((std::get<0>(e) == i && std::get<1>(e) == j) ||
+                            (!GInfo<W>::directed && std::get<0>(e) == j && std::get<1>(e) == i))
+                            dup = true;
+                    if (!dup)
+                        nx.edges.insert(nx.edges.begin() + (nx.edges.empty() ? 0 : rng() % nx.edges.size()),
+                                        std::make_tuple(i, j, (int)(rng() % (maxW + 1))));
+                    break;
+                }
+                case 2: // remove an edge
+                    if (nx.edges.size() > 2)
+                        nx.edges.erase(nx.edges.begin() + rng() % nx.edges.size());
+                    break;
+                case 3: // swap the insertion order of two edges
+                    if (nx.edges.size() > 1)
+                        std::swap(nx.edges[rng() % nx.edges.size()], nx.edges[rng() % nx.edges.size()]);
+                    break;
+                default: // nudge a weight
+                    if (!nx.edges.empty()) {
+                        int &w = std::get<2>(nx.edges[rng() % nx.edges.size()]);
+                        w = std::max(0, w + (int)(rng() % 3) - 1);
+                    }
+                }
+                double f = fitness<W>(nx, 0, sc, bd);
+                if (f >= curFit) {
+                    cur = std::move(nx);
+                    curFit = f;
+                }
+            }
+            if (curFit > bestFit) {
+                bestFit = curFit;
+                best = cur;
+            }
+        }
+        // the best instance becomes a record (built exactly as it was evaluated)
+        W g = buildInst<W>(best);
+        size_t E = 0;
+        for (VertexIndex v = 0; v < n; ++v)
+            E += g.getOutNeighbours(v).size();
+        CountW<W> cg(g);
+        cg.cap = 200 * (n + E) + 200;
+        json rec = {{"k", "dijkstra"}, {"dir", GInfo<W>::directed}, {"g", encOf(g)}, {"s", 0}, {"V", n}, {"E", E},
+                    {"family", GInfo<W>::name() + " [adversarial search]"}, {"inexact", true}};
+        try {
+            auto res = algorithms::findGeodesicsDijkstra(cg, 0);
+            rec["pred"] = seqJson(res.second);
+        } catch (const ScanCapExceeded &) {
+            rec["pred"] = json::array();
+        }
+        rec["scans"] = cg.scans;
+        rec["dist"] = json::array();
+        rec["search_best_ratio"] = bestFit;
+        r.records.push_back(rec);
+    }
     template <class DGT, class UGT, class A> void bigEdgeList(const json &c, const char *kind, CaseResult &r) {
         using E = LabeledEdge<A>;
         std::mt19937 rng(c.value("seed", 1u) + 17);
